@@ -23,6 +23,12 @@ def render_filter(f):
         return f[1]
     if op == "cmp":
         return f"{f[2]} {f[1]} {f[3]!r}"
+    if op == "int":
+        return f"int({f[2]}) {f[1]} {f[3]!r}"
+    if op == "div":
+        return f"6 // {f[2]} {f[1]} {f[3]!r}"
+    if op == "lookup":
+        return "{" + ", ".join(f"{k!r}: {b!r}" for k, b in f[2]) + "}[" + f[1] + "]"
     if op == "not":
         return f"(not {render_filter(f[1])})"
     if op == "and":
